@@ -151,6 +151,32 @@ fn run_entry(entry: &str, input: &[u8]) -> Option<bool> {
             use lettre::transport::smtp::extension::ClientId;
             !Ehlo::new(ClientId::Domain(text())).to_string().is_empty()
         }
+        "rrclose" | "arrclose" => {
+            // a peer that sends `input` (after greeting and EHLO reply) and closes: read_response must come back
+            use std::io::{Read, Write};
+            let listener = std::net::TcpListener::bind("127.0.0.1:0").ok()?;
+            let port = listener.local_addr().ok()?.port();
+            let data = input.to_vec();
+            std::thread::spawn(move || {
+                if let Ok((mut s, _)) = listener.accept() {
+                    let _ = s.write_all(b"220 g\r\n250 e\r\n");
+                    let mut b = [0u8; 64];
+                    let _ = s.read(&mut b);
+                    let _ = s.write_all(&data);
+                }
+            });
+            let hello = lettre::transport::smtp::extension::ClientId::Domain("h".into());
+            if entry == "rrclose" {
+                let mut c = lettre::transport::smtp::client::SmtpConnection::connect(("127.0.0.1", port), Some(Duration::from_secs(2)), &hello, None, None).ok()?;
+                c.read_response().is_ok()
+            } else {
+                let rt = tokio::runtime::Builder::new_current_thread().enable_all().build().ok()?;
+                rt.block_on(async {
+                    let mut c = lettre::transport::smtp::client::AsyncSmtpConnection::connect_tokio1(("127.0.0.1", port), Some(Duration::from_secs(2)), &hello, None, None).await.ok()?;
+                    Some(c.read_response().await.is_ok())
+                })?
+            }
+        }
         "creds" => {
             use lettre::transport::smtp::authentication::{Credentials, Mechanism};
             let c = Credentials::new(text(), text());
@@ -182,7 +208,19 @@ fn guarded(entry: &str, input: Vec<u8>) -> (String, Duration) {
         }
     });
     let out = match h {
-        Ok(h) => h.join().unwrap_or_else(|_| "PANIC:".into()),
+        Ok(h) => {
+            // a case that neither returns nor panics within 8 s is blocked or spinning; its thread is left behind
+            let deadline = Instant::now() + Duration::from_secs(8);
+            loop {
+                if h.is_finished() {
+                    break h.join().unwrap_or_else(|_| "PANIC:".into());
+                }
+                if Instant::now() > deadline {
+                    break "HANG".into();
+                }
+                std::thread::sleep(Duration::from_micros(200));
+            }
+        }
         Err(_) => "skip".into(),
     };
     (out, t0.elapsed())
